@@ -16,6 +16,8 @@ From KV Require Import Yaml.Fns Yaml.FieldSpec Yaml.TotalityProofs.
 From KV Require Import Glob.PanicSiteTypes Glob.PanicAllow Glob.PanicAllowProofs Gen.PanicSites Gen.C12Findings.
 From KV Require Import Glob.TotalityMore.
 From KV Require Glob.TotalityWalker Glob.TotalityNameRef Res.NameRefProofs Res.NameRefTypes.
+From KV Require Res.BuildAnnot Glob.TotalityBuildAnnot Glob.OpenApiState.
+From KV Require Import Gen.Annotations.
 From KV Require Import Glob.ModelPanicMap Glob.ModelPanicMapProofs Gen.C12ModelPanics.
 From KV Require Yaml.Split Yaml.Annot Yaml.Match Yaml.MatchProofs Yaml.MatchTotalProofs Fs.MemFs Fs.DiskFs Fs.DiskFsProofs
      Fs.Loader Res.Resource Res.Labels Res.Namespace Res.Generators Res.NameRef
@@ -339,6 +341,96 @@ Theorem C12_total_core_fmt_node :
     exists n', Fmt.fmt_node nonstr hastype srt kind api s p n = Ok n'.
 Proof. exact FmtProofs.fmt_no_panic. Qed.
 Print Assumptions C12_total_core_fmt_node.
+
+(* ---- (1b') exact triggers of the remaining finding classes, over their models ---------------------------
+   PrevIds: C12_prev_ids_panic_iff above. SetDataMap / SetBinaryDataMap (non-string data key + generator merge):
+   no model carries non-string keys (Res/Generators.v keeps data as string dictionaries) - search only.
+   The three explicit-wrong-node-kind classes: model Res/BuildAnnot.v (GetAnnotations reads Content in pairs,
+   SetAnnotations clears the first annotations field and fills what LookupCreate finds next, SetAnnotation is
+   Yaml/Annot.v), tied to api/resource.Resource.AddNamePrefix / AllowNameChange / RemoveBuildAnnotations by the
+   outcome-class correspondence (core cases `build-annotation-methods`). Domain: root mapping whose first metadata
+   field is a non-empty mapping (what GetValidatedMetadata lets through). *)
+
+(* class panic:api/resource Resource.enable explicit-wrong-node-kind *)
+Theorem C12_enable_panic_iff :
+  forall key n,
+    (BuildAnnot.enable key n = Panic <->
+     BuildAnnot.set_annotations_fails (BuildAnnot.get_annotations n ++ [(key, K_utils_Enabled)])%list n = true) /\
+    BuildAnnot.enable key n <> Diverge.
+Proof. exact (fun key n => conj (TotalityBuildAnnot.enable_panic_iff key n) (TotalityBuildAnnot.enable_no_diverge key n)). Qed.
+Print Assumptions C12_enable_panic_iff.
+
+(* ... which, when metadata has ONE annotations field, is: some annotation has the empty key text ("": x, or a
+   non-scalar / empty element in key position of a list) *)
+Theorem C12_enable_panic_iff_unique :
+  forall key n, key <> "" -> BuildAnnot.shadow_field n = None ->
+    (BuildAnnot.enable key n = Panic <-> BuildAnnot.has_key "" (BuildAnnot.get_annotations n) = true).
+Proof. exact (TotalityBuildAnnot.enable_panic_iff_unique (fun _ => false)). Qed.
+Print Assumptions C12_enable_panic_iff_unique.
+
+(* class panic:api/resource Resource.RemoveBuildAnnotations explicit-wrong-node-kind *)
+Theorem C12_remove_build_annotations_panic_iff :
+  forall n,
+    (BuildAnnot.remove_build_annotations n = Panic <->
+     (BuildAnnot.get_annotations n <> nil) /\
+     BuildAnnot.set_annotations_fails
+       (filter (fun kv => negb (str_in (fst kv) BuildAnnot.build_annotations)) (BuildAnnot.get_annotations n)) n = true) /\
+    BuildAnnot.remove_build_annotations n <> Diverge.
+Proof.
+  exact (fun n => conj (TotalityBuildAnnot.remove_build_annotations_panic_iff n)
+                       (TotalityBuildAnnot.remove_build_annotations_no_diverge n)).
+Qed.
+Print Assumptions C12_remove_build_annotations_panic_iff.
+
+Theorem C12_remove_build_annotations_panic_iff_unique :
+  forall n, BuildAnnot.shadow_field n = None ->
+    (BuildAnnot.remove_build_annotations n = Panic <-> BuildAnnot.has_key "" (BuildAnnot.get_annotations n) = true).
+Proof. exact TotalityBuildAnnot.remove_build_annotations_panic_iff_unique. Qed.
+Print Assumptions C12_remove_build_annotations_panic_iff_unique.
+
+(* class panic:api/resource Resource.appendCsvAnnotation explicit-wrong-node-kind: a non-empty value whose
+   yaml.SetAnnotation fails (Yaml/Annot.v: the annotations field that survives ClearEmptyAnnotations is a
+   sequence / a non-null scalar; witness and non-witnesses: TotalityBuildAnnot.append_csv_* examples) *)
+Theorem C12_append_csv_annotation_panic_iff :
+  forall nonstr name value n,
+    (BuildAnnot.append_csv_annotation nonstr name value n = Panic <->
+     value <> "" /\
+     Annot.set_annotation nonstr name
+       (join_with ","
+          ((match BuildAnnot.assoc_last name (BuildAnnot.get_annotations n) with
+            | Some s => split_on ","%char s | None => nil end) ++ [value])%list) n = Err) /\
+    BuildAnnot.append_csv_annotation nonstr name value n <> Diverge.
+Proof.
+  exact (fun nonstr name value n =>
+           conj (TotalityBuildAnnot.append_csv_annotation_panic_iff nonstr name value n)
+                (TotalityBuildAnnot.append_csv_annotation_no_diverge nonstr name value n)).
+Qed.
+Print Assumptions C12_append_csv_annotation_panic_iff.
+
+(* witnesses of the three classes in the model (the implementation side: corpus/C12/n5, n7, n8) *)
+Theorem C12_refuted_build_annotation_methods :
+  BuildAnnot.append_csv_annotation (fun _ => false) K_utils_BuildAnnotationPrefixes "p-"
+    (TotalityBuildAnnot.doc_with_annotations (Seq [Scalar TStr SPlain "a"; Scalar TStr SPlain "b"])) = Panic /\
+  BuildAnnot.remove_build_annotations (TotalityBuildAnnot.doc_with_annotations (Map [("", Scalar TStr SPlain "x")])) = Panic /\
+  BuildAnnot.enable K_utils_BuildAnnotationAllowNameChange (TotalityBuildAnnot.doc_with_annotations (Seq [Map []; Map []])) = Panic.
+Proof.
+  exact (conj TotalityBuildAnnot.append_csv_panics_on_list
+              (conj (proj1 TotalityBuildAnnot.remove_build_panics_on_empty_key)
+                    (proj1 (proj2 (proj2 TotalityBuildAnnot.remove_build_panics_on_empty_key))))).
+Qed.
+Print Assumptions C12_refuted_build_annotation_methods.
+
+(* class panic:kyaml/openapi.initSchema explicit-invalid-schema-file, over Glob/OpenApiState.v (C01 / C16): with a
+   custom schema selected and the compiled-in assets intact, initSchema panics EXACTLY when the custom schema
+   does not decode *)
+Theorem C12_init_schema_custom_panic_iff :
+  forall e s c,
+    OpenApiState.o_init s = false -> OpenApiState.o_custom s = Some c ->
+    (exists s2, OpenApiState.parse_builtin e (OpenApiState.with_init s true) OpenApiState.default_version = Some s2) ->
+    OpenApiState.s_valid (OpenApiState.e_kust e) = true ->
+    (snd (OpenApiState.init_schema e s) = CPanic <-> OpenApiState.s_valid c = false).
+Proof. exact TotalityBuildAnnot.init_schema_custom_panic_iff. Qed.
+Print Assumptions C12_init_schema_custom_panic_iff.
 
 (* ---- (1c) every Panic constructor of every model file is accounted for --------------------------------
    Gen/C12ModelPanics.v lists (file, definition, ordinal) of every producer of the outcome Panic in the model
